@@ -174,17 +174,20 @@ pub fn native_minmax<T, const LESS: bool>(
         Value::Object(o) => unsafe {
             match &o.as_ref().body {
                 CaoLangObjectBody::Table(t) => {
-                    let Some(first) = t.iter().next() else {
+                    // the key function may modify the table: iterate over a copy of the rows,
+                    // never over the storage of the live table
+                    let rows: Vec<(Value, Value)> = t.iter().map(|(k, v)| (*k, *v)).collect();
+                    let Some(first) = rows.first() else {
                         return Ok(Value::Nil);
                     };
-                    vm.stack_push(*first.1)?;
-                    vm.stack_push(*first.0)?;
+                    vm.stack_push(first.1)?;
+                    vm.stack_push(first.0)?;
                     let mut max_key = vm.run_function(key_fn)?;
                     // the best key so far is only referenced from here: keep it alive
                     let mut _max_key_guard = guard_value(max_key);
                     let mut i = 0;
 
-                    for (j, (k, value)) in t.iter().enumerate().skip(1) {
+                    for (j, (k, value)) in rows.iter().enumerate().skip(1) {
                         vm.stack_push(*value)?;
                         vm.stack_push(*k)?;
                         let key = vm.run_function(key_fn)?;
@@ -194,8 +197,7 @@ pub fn native_minmax<T, const LESS: bool>(
                             _max_key_guard = guard_value(max_key);
                         }
                     }
-                    let k = t.nth_key(i);
-                    let v = *t.get(&k).unwrap();
+                    let (k, v) = rows[i];
                     let mut result = vm.init_table()?;
                     let t = result.0.as_mut().as_table_mut().unwrap();
                     t.insert(vm.init_string("key")?, k)?;
@@ -233,10 +235,13 @@ pub fn native_sorted<T>(
                 CaoLangObjectBody::Table(t) => {
                     // TODO:
                     // sort in place?
-                    let mut result = Vec::with_capacity(t.len());
+                    // the key function may modify the table: iterate over a copy of the rows,
+                    // never over the storage of the live table
+                    let rows: Vec<(Value, Value)> = t.iter().map(|(k, v)| (*k, *v)).collect();
+                    let mut result = Vec::with_capacity(rows.len());
                     // the computed keys are only referenced from here: keep them alive
-                    let mut _key_guards = Vec::with_capacity(t.len());
-                    for (k, v) in t.iter() {
+                    let mut _key_guards = Vec::with_capacity(rows.len());
+                    for (k, v) in rows.iter() {
                         vm.stack_push(*v)?;
                         vm.stack_push(*k)?;
                         let key = vm.run_function(key_fn)?;
